@@ -31,7 +31,7 @@ ASSUMPTIONS = [
     "argument-wise subtyping is only asserted for equal arity",
 ]
 REPORT_COUNTERS = ["calls", "calls_passed_generic", "calls_passed_nested", "calls_any", "two_type_methods_applicable",
-                   "unique_best_checked", "pos_subtler", "pos_plain_type"]
+                   "unique_best_checked", "pos_subtler", "pos_plain_type", "strict_first_posonly", "strict_first_names"]
 
 
 def plan(tier):
@@ -69,9 +69,15 @@ def gen_case(rng, params, idx):
     p0 = rng.choice([0.0, 0.75, 0.75, 0.75])
     p1 = rng.choice([0.0, 0.0, 0.0, 0.6])
     methods = []
+    # the first position is sometimes *strictly positional* (positional-only, or named differently by different
+    # methods) while the second stays an ordinary positional-or-keyword parameter: the entry point then builds its
+    # lookup key from two separate groups of parameters
+    strict = rng.choice(["no", "no", "posonly", "names"])
     for i in range(rng.randint(1, 6)):
-        methods.append({"mid": i, "pos": [{"n": "a", "t": _gen_param(rng, classes, p0)},
-                                          {"n": "b", "t": _gen_param(rng, classes, p1)}]})
+        first = {"n": "a" if strict != "names" else f"a{i % 2}", "t": _gen_param(rng, classes, p0)}
+        if strict == "posonly":
+            first["po"] = True
+        methods.append({"mid": i, "pos": [first, {"n": "b", "t": _gen_param(rng, classes, p1)}]})
     calls = []
     for _ in range(25):
         args = []
@@ -85,7 +91,7 @@ def gen_case(rng, params, idx):
                 args.append(rng.choice([["v", 1], ["v", "s"], ["v", 2.5], ["v", True],
                                         ["i", rng.choice([s["name"] for s in hier])]]))
         calls.append(args)
-    return {"hier": hier, "methods": methods, "calls": calls}
+    return {"hier": hier, "methods": methods, "calls": calls, "strict_first": strict}
 
 
 def _is_passed(vx):
@@ -130,6 +136,7 @@ def check_case(spec, res):
         o.register(fn)
         files.append(f)
     res.sample(spec)
+    res.count("strict_first_" + spec.get("strict_first", "no"))
     sigkey = sorted(T.tname(p["t"]) for m in spec["methods"] for p in m["pos"])
     o.compile()
     aa = o.argument_analysis
